@@ -268,6 +268,21 @@ extern "C" void harness()
 #endif
 		check_ledger();
 	}
+	// an EMPTY handle written the plain way (`Handle h;`, default-initialised) in storage that held arbitrary bytes before: it refers to no callback --
+	// remove through it returns false and changes nothing, insert-before it appends at the back (its content must not be left indeterminate)
+	{
+		void * buf = ::operator new(sizeof(T::Handle)); vf_havoc(buf, sizeof(T::Handle));
+		T::Handle * eh = new (buf) T::Handle;
+#if OBJ == 0
+		bool r = g->t->remove(*eh);
+#else
+		bool r = g->t->removeListener(EV, *eh);
+#endif
+		vf_assert(! r, 254);
+		int p = 1 + (int)vf_choose(2);
+		if(m.nl[p] < MAXL) { add_before(p, 8000u + (uint32_t)p, *eh); m.lis[p][m.nl[p]++] = 8000u + (uint32_t)p; }
+		{ using HandleT = T::Handle; eh->~HandleT(); } ::operator delete(buf);
+	}
 	// final probe: one more callback appended to every prototype is reached by that prototype's invocation (a stale tail would lose it)
 	for(int p = 0; p < 4; p++) if(m.nl[p] < MAXL) {
 		add(p, 9000u + (uint32_t)p, false); m.lis[p][m.nl[p]++] = 9000u + (uint32_t)p;
